@@ -1,10 +1,12 @@
 """C08 extra step: (1) the built CLI evaluates a handful of hostile expressions end to end (`rare expression`)
-under a memory limit and a timeout; (2) the recorded known finding (an expression whose value doubles per
+under a memory limit and a timeout, plus the boundary family of every size / index guard (the counts and indices
+at which an int64 product or sum wraps: a panic inside the real binary = exit status 2 + "panic:" on stderr);
+(2) the recorded known finding (an expression whose value doubles per
 element exhausts memory: resource exhaustion, not a Go panic) is replayed so that it keeps being reported
 while it is real and is flagged as stale when it stops failing."""
 import os, sys, subprocess, resource
 sys.path.insert(0, os.path.dirname(__file__))
-from common import build_rare
+from common import build_rare, Rand
 
 OOM_WITNESS = '{@reduce {@range 0 40} "{0}{0}"}'
 
@@ -19,6 +21,36 @@ def limited(cmd, mem_mb=1500, timeout=60):
         return "timeout", b"", b""
 
 
+def guard_family(ctx):
+    """Expressions at the wrap-around points of the guards regenerated into Gen/C08.lean (the seeded change
+    `count*len(char) > maxRepeatBytes` in kfRepeat panics on the first group)."""
+    out = []
+    two62, two63, two64 = 1 << 62, 1 << 63, 1 << 64
+    for pat in ("ab", "abcd", "\u20ac", "abcdefg"):
+        n = len(pat.encode("utf8"))
+        for base in (two62, two63, two64, 1 << 20):
+            for d in (-1, 0, 1):
+                c = base // n + d
+                if -two63 <= c < two63:
+                    out.append('{repeat "%s" %d}' % (pat, c))
+        out.append('{repeat "%s" %d}' % (pat, two63 - 1))
+    idx = [-two63, -two63 + 1, -4, -3, -2, -1, 0, 1, 2, 3, 4, two63 - 4, two63 - 3, two63 - 2, two63 - 1]
+    r = Rand(ctx.get("seed", 1) * 7919 + 8)
+    for a in idx:
+        b = idx[r.intn(len(idx))]
+        out += ['{substr abc %d %d}' % (a, b), '{substr abc %d %d}' % (b, a), '{select "a b c" %d}' % a,
+                '{@select {@ a b c} %d}' % a, '{@slice {@ a b c} %d %d}' % (a, b), '{@slice {@ a b c} %d}' % a,
+                '{%d}' % a, '{@map {@ a b c} "{%d}"}' % a, '{@reduce {@ a b c} "{%d}{1}"}' % a]
+    for a in (-two63, -1, 0, 1, two63 - 1):
+        for b in (-two63, -1, 0, 1, two63 - 1):
+            out += ['{divi %d %d}' % (a, b), '{modi %d %d}' % (a, b), '{divi {1} %d}' % b]
+    for p in (1024, 1025, 1 << 31, 1 << 32, two63 - 1, -two63):
+        out += ['{round 1.5 %d}' % p, '{percent 0.5 %d}' % p, '{bytesize 1536 %d}' % p, '{downscale 1536 %d}' % p]
+    out += ['{bar {1} 10 65536}', '{bar 5 10 65537}', '{bar {1} 10 100000000000}', '{bar 5 10 9223372036854775807}',
+            '{bar 5 10 -9223372036854775808}', '{color red x}', '{color blac\u212a x}', 'a\\', '{sumi 1 2}\\', '{a \\']
+    return out
+
+
 def run(ctx):
     exe = build_rare(ctx)
     violations, known, runs = [], [], 0
@@ -27,6 +59,7 @@ def run(ctx):
                '{@range 0 9223372036854775807}', '{@for 0 {lt {1} 3} {k}}', '{@map {0} "{-1}"}', '{! 5 % x}', '{! -}', '{! 2 + -}',
                '{! 1 << -1}', '{hi -9223372036854775808}', '{-9223372036854775808}', '{bucket -100 50}', '{@slice {@ a b c} -5}',
                '{percent 1 9007199254740992}', '{bytesize 1 9223372036854775807}', '{timeattr 0 quarter}', '{format %d%s%v x}']
+    hostile += guard_family(ctx)
     for e in hostile:
         rc, out, err = limited([exe, "expression", "-d", "x", "-d", "-7", e], timeout=30)
         runs += 1
